@@ -293,6 +293,10 @@ def replay_source(case):
     return bool(out["violations"])
 
 
+# head()/tail() of a sorted frame are tree reductions over the INPUT partitions (NFirst / NLast, batches of split_every = 8):
+# these programs are also run on more input partitions than one batch holds, so that the combine level exists
+MANY_INPUT_PARTITIONS = ["sort_unique", "sort_two", "sort_scrambled_key", "sort_scrambled_key_desc", "set_index_scrambled_key", "set_index_unique", "set_index_filter"]
+
 SOURCES = ["from_pandas", "from_pandas_unsorted", "from_array", "from_array_1d", "from_map", "from_map_divs", "from_delayed", "from_delayed_prefix", "persisted", "read_csv", "read_parquet_fsspec", "read_parquet_arrow", "read_parquet_arrow_divs", "timeseries"]
 
 
@@ -304,8 +308,10 @@ def run(run):
     d1 = [n for n in C.generated_depth1(["id", "cols_ub", "filter_b", "col_a"]) if not (set(n.split(":")) & {"head_all", "head_k2", "tail", "parts"})]
     if run.tier == "quick":
         cases = K.standard_cases(hand, ["range"], [("np", 3, True)]) + K.standard_cases(hand[::2], ["dupint"], [("np", 4, False)]) + K.standard_cases(d1, ["range"], [("np", 4, True)])
+        cases += K.standard_cases(MANY_INPUT_PARTITIONS, ["range"], [("np", 12, True)], n=36)
     else:
         cases = K.standard_cases(hand + d1, ["range", "dupint", "str"], [("np", 2, True), ("np", 3, True), ("np", 5, False), ("np", 7, True)])
+        cases += K.standard_cases(MANY_INPUT_PARTITIONS, ["range"], [("np", 12, True), ("np", 20, False)], n=40)
         cases += K.standard_cases([n for n in C.generated_depth2(rng, 1500) if not (set(n.split(":")) & {"head_all", "head_k2", "tail", "parts", "head3", "tail2", "part1", "head4_all"})], ["range"], [("np", 4, True)])
     run_cases(run, "vf.props.C11", "check_case", cases, {})
     src_cases = [(s, c) for s in SOURCES for c in ("id", "elemwise", "filter", "bcast", "proj")]
